@@ -132,7 +132,7 @@ def c20(res, tier, seed, replay):
                 cases += 1
                 nres += len(e["r"]) * (2 if e["ev"] == "S" else 1)
                 distinct.add(case_key(e))
-                lens["F-" + impl if e["ev"] == "F" else e["ev"]].add(e["n"])
+                lens.setdefault("F-" + str(impl) if e["ev"] == "F" else e["ev"], set()).add(e["n"])
         try:
             st = json.loads(r["stdout"].strip().splitlines()[-1])
         except Exception:
